@@ -384,6 +384,30 @@ func RunCheck(opts *CheckOpts) int {
 		all = append(all, &Obligation{Name: ShortKey(k) + "#vacuity.pre", Kind: "vacuity", Fn: k, Clause: "requires/assumes are satisfiable", NDefs: g.entryDefs, Reach: True, Goal: True, Gen: g, MustSat: true})
 		all = append(all, g.Obls...)
 	}
+	// canaries: at every return, the negation of the first postcondition must not be
+	// provable as well (otherwise the assumptions on that path are contradictory, or
+	// the return is dead code): reported as VACUOUS-PATH, listed in evidence
+	seenRet := map[string]bool{}
+	var canaries []*Obligation
+	for _, o := range all {
+		if o.Kind != "post" || o.MustSat {
+			continue
+		}
+		i := strings.Index(o.Name, "@ret")
+		if i < 0 {
+			continue
+		}
+		key := o.Fn + o.Name[i:]
+		if j := strings.Index(key, "/"); j >= 0 {
+			key = key[:j]
+		}
+		if seenRet[key] {
+			continue
+		}
+		seenRet[key] = true
+		canaries = append(canaries, &Obligation{Name: ShortKey(o.Fn) + "#canary" + strings.SplitN(o.Name[i:], "/", 2)[0], Kind: "canary", Fn: o.Fn, Clause: "path to this return is consistent", Pos: o.Pos, NDefs: o.NDefs, Reach: o.Reach, Goal: False, Gen: o.Gen, Canary: true})
+	}
+	all = append(all, canaries...)
 	var re *regexp.Regexp
 	if opts.Only != "" {
 		re = regexp.MustCompile(opts.Only)
@@ -416,6 +440,7 @@ func RunCheck(opts *CheckOpts) int {
 
 	// report
 	exit := 0
+	var vacuous []string
 	nObl, nDis := 0, 0
 	var samples []any
 	var knownLines []string
@@ -438,6 +463,13 @@ func RunCheck(opts *CheckOpts) int {
 			continue
 		}
 		o := r.O
+		if o.Canary {
+			if r.Status == "vacuous" {
+				vacuous = append(vacuous, o.Name+" at "+o.Pos)
+				fmt.Printf("VACUOUS-PATH %s at %s: the path condition of this return is unsatisfiable (dead code, or contradictory assumptions)\n", o.Name, o.Pos)
+			}
+			continue
+		}
 		if o.MustSat {
 			if r.Status != "proved" {
 				fmt.Printf("BROKEN property=%s reason=vacuity guard %s: %s\n", prop, o.Name, r.Res.Status)
@@ -535,6 +567,7 @@ func RunCheck(opts *CheckOpts) int {
 		}
 	}
 	boundedGlobal = boundedEv
+	vacuousGlobal = vacuous
 	fmt.Printf("property %s: %d functions under contract, %d obligations, %d discharged, %d known findings, %.1fs\n", prop, len(reports), nObl, nDis, len(knownLines), time.Since(start).Seconds())
 
 	if !opts.NoEvidence {
@@ -554,6 +587,17 @@ func writeJSON(path string, v any) {
 
 func decide(o *Obligation, cfg *SolverCfg, known []KnownFinding, prop string, opts *CheckOpts) *oblResult {
 	var res *SolveResult
+	if o.Canary {
+		// goal False: "unsat" means the path condition itself is unsatisfiable
+		c0 := *cfg
+		c0.CrossCheck = false
+		r0 := SolveFirstOnly(&c0, o.ScriptSeeded())
+		st := "ok"
+		if r0.Status == "unsat" {
+			st = "vacuous"
+		}
+		return &oblResult{O: o, Res: r0, Status: st}
+	}
 	if !o.MustSat {
 		// stage 0: goal-directed instantiation, z3-new only, short limit
 		s0 := o.ScriptSeeded()
@@ -765,6 +809,7 @@ func writeEvidence(opts *CheckOpts, prog *Program, reports []*FnReport, results 
 			"known_findings_reported":  knownLines,
 			"samples":                  samples,
 			"bounded_standins":         boundedOrEmpty(),
+			"vacuous_or_dead_returns":  vacuousOrEmpty(),
 		},
 		Assumptions: assumptions,
 		WallS:       wall,
@@ -1250,11 +1295,21 @@ func (g *Gen) refBoundsOfReads(asserts []*Term) []*Term {
 			} else {
 				cell = Select(v, i1)
 			}
-			out = append(out, And(Le(IntLit(0), cell), Le(cell, clk)))
+			// only objects that existed when the version was written are covered
+			out = append(out, Implies(And(Le(i1, clk)), And(Le(IntLit(0), cell), Le(cell, clk))))
 		}
 	}
 	for _, a := range asserts {
 		rec(a)
 	}
 	return out
+}
+
+var vacuousGlobal []string
+
+func vacuousOrEmpty() []string {
+	if vacuousGlobal == nil {
+		return []string{}
+	}
+	return vacuousGlobal
 }
